@@ -1,7 +1,7 @@
 (* C01 — Chunk reads return exactly the bytes stored under that address.  Property theorems only. *)
 From Coq Require Import NArith List Bool Sorting.Permutation Sorting.Sorted.
 From Dolt Require Import Base.Str Gen.C01Consts C01.Model C01.Spec C01.Corr C01.Proofs C01.ProofsBytes C01.ProofsSort C01.ProofsTable
-  C01.ProofsStore C01.ProofsStore2 C01.ProofsStore3 C01.ProofsStore4 C01.ProofsStore5.
+  C01.ProofsStore C01.ProofsStore2 C01.ProofsStore3 C01.ProofsStore4 C01.ProofsStore5 C01.ModelBatch C01.ProofsBatch.
 Import ListNotations.
 Local Open Scope N_scope.
 
@@ -129,3 +129,11 @@ Theorem C01_reads_agree :
                     (if (if gen cfg then g_has g a else st_has (g_new g) a) then [] else [a]).
 Proof. exact reads_agree. Qed.
 Print Assumptions C01_reads_agree.
+
+(* read batching (groupSpans / canReadAhead): every requested span lies inside the batch
+   that serves it, and the batches serve exactly the requested spans, in order *)
+Theorem C01_batches_cover :
+  forall (bs : N) (spans : list span), spans_sorted spans ->
+    Forall run_covers (group_spans bs spans) /\ concat (map snd (group_spans bs spans)) = spans.
+Proof. exact batches_cover. Qed.
+Print Assumptions C01_batches_cover.
